@@ -85,6 +85,9 @@ def cat(*xs):
             out.extend(x.a[0])
         elif x.op == 'eps':
             continue
+        elif out and x.op == 'star' and out[-1].op == 'star' and x.a[0].op == 'set' and out[-1].a[0].op == 'set' \
+                and x.a[0].a == out[-1].a[0].a:
+            continue        # C* C* = C*
         else:
             out.append(x)
     if not out:
